@@ -67,6 +67,23 @@ def schemaOfIntrospection (data : J) : SchemaD :=
     query := rootOf (s.getD "queryType"), mutation := rootOf (s.getD "mutationType"),
     subscription := rootOf (s.getD "subscriptionType") }
 
+/-- the one part of the answer the schema description has no slot for: `possibleTypes` of every reported INTERFACE
+    (name of the interface, names listed) — for unions `possibleTypes` is decoded into `members` by `typeOf` -/
+def interfacePossibleOf (data : J) : List (String × List String) :=
+  (((data.getD "__schema").arrD "types").filter fun j => kindOfString (j.strD "kind") == .interface).map
+    fun j => (j.strD "name", (j.arrD "possibleTypes").map (·.strD "name"))
+
+/-- the WHOLE decoder: every entry of the standard introspection result is read — types (kind, name, description, fields
+    with arguments, input fields, enum values, interfaces, possibleTypes of unions AND interfaces), directives (locations,
+    arguments), root types, deprecation -/
+def decodeAll (data : J) : SchemaD × List (String × List String) := (schemaOfIntrospection data, interfacePossibleOf data)
+
+/-- what a schema determines about its interfaces' possible types: per interface (in the listing order of the types), the
+    names of the object types that declare it, sorted -/
+def implementers (s : SchemaD) : List (String × List String) :=
+  ((sortBy (·.name) s.types).filter fun t => t.kind == .interface).map fun t =>
+    (t.name, sortBy id ((s.types.filter fun o => o.kind == .object && o.interfaces.contains t.name).map (·.name)))
+
 /-! ### what is observable -/
 
 /-! `norm` is written as explicit PROJECTIONS on the components introspection can observe: every other field of
